@@ -128,27 +128,29 @@ Proof.
 Qed.
 Print Assumptions C11_boundary_sets.
 
-(* 3-D boundary edges.  Full statement wanted: "for tets, hexes and wedges, boundary_edges is exactly the set of edges
-   of boundary facets".  Proved here with the facet-array assumption H3 explicit (consecutive vertices of a boundary
-   facet column span an edge of the cell behind it): it holds for sorted triangles and cyclic quadrilaterals
-   and FAILS for the row-sorted quadrilateral facets of MeshWedge1 — see the finding of this check. *)
-Theorem C11_boundary_edges_exact_partial :
-  forall (sortf : bool) (cells facet_idx edge_idx : list (list nat)) (g : nat),
-  let fac := entities sortf cells facet_idx in
-  let edg := entities true cells edge_idx in
-  let t2e := mapping cells edge_idx in
-  let f2t := f2t_of cells facet_idx in
-  0 < length cells -> 0 < length facet_idx ->
-  (forall f itr, In f (boundary_facets f2t) -> itr < length (hd [] fac) ->
-     exists s, s < length edge_idx /\
-       key cells edge_idx s (Z.to_nat (row0 f2t f)) =
-       isort [nth itr (nth f fac []) 0; nth ((itr + 1) mod length (hd [] fac)) (nth f fac []) 0]) ->
-  g < length edg ->
-  (In g (boundary_edges fac edg t2e f2t) <->
-   exists f itr, In f (boundary_facets f2t) /\ itr < length (hd [] fac) /\
-     nth g edg [] = isort [nth itr (nth f fac []) 0; nth ((itr + 1) mod length (hd [] fac)) (nth f fac []) 0]).
-Proof. exact boundary_edges_exact. Qed.
-Print Assumptions C11_boundary_edges_exact_partial.
+(* 3-D boundary edges, for EVERY cell type (tetrahedra, hexahedra, wedges; tables regenerated from refdom.py) and every list
+   of cells with pairwise distinct vertices: boundary_edges is exactly the set of numbers t2e[es][e] of the local edges es
+   of a cell e that lie in a local facet s of e (edge slot contained in the facet slot) whose facet has a single neighbour;
+   the result is strictly increasing *)
+Theorem C11_boundary_edges_exact_every_cell_type :
+  forall (k : kind) (cells : list (list nat)) (g : nat),
+    0 < length cells -> Forall (fun c => NoDup c /\ length c = k_nnodes k) cells ->
+    let t2f := mapping cells (k_facets k) in
+    let t2e := mapping cells (k_edges k) in
+    let f2t := f2t_of cells (k_facets k) in
+    StronglySorted (lt Nat.compare) (boundary_edges (k_facets k) (k_edges k) t2f t2e f2t) /\
+    (In g (boundary_edges (k_facets k) (k_edges k) t2f t2e f2t) <->
+     exists f e s es, f < length (entities true cells (k_facets k)) /\ row1 f2t f = (-1)%Z /\
+       e < length cells /\ s < length (k_facets k) /\ es < length (k_edges k) /\
+       nth e (nth s t2f []) 0 = f /\ subset (nth es (k_edges k) []) (nth s (k_facets k) []) = true /\
+       nth e (nth es t2e []) 0 = g).
+Proof.
+  intros k cells g Hnt Hc t2f t2e f2t. split; [apply boundary_edges_sorted|].
+  apply (boundary_edges_exact cells (k_facets k) (k_edges k) g Hnt).
+  - apply Nat.ltb_lt. apply facets_nonempty.
+  - now apply slots_injective_every_cell_type.
+Qed.
+Print Assumptions C11_boundary_edges_exact_every_cell_type.
 
 Theorem C11_boundary_interior_edges_partition :
   forall (nedges : nat) (be : list nat) (g : nat), g < nedges ->
